@@ -46,7 +46,7 @@ func (p *Proc) Append(buf []byte, _, _ bool) []byte {
 	return append(buf, ']')
 }
 
-func (p *Proc) locate(pp Expr, data any, rest Expr, max int) (locs []Expr) {
+func (p *Proc) locate(pp Expr, data any, rest Expr, max int, root any) (locs []Expr) {
 	got := p.Procedure.Get(data)
 	if len(rest) == 0 { // last one
 		for i := range got {
@@ -59,7 +59,7 @@ func (p *Proc) locate(pp Expr, data any, rest Expr, max int) (locs []Expr) {
 		cp := append(pp, nil) // place holder
 		for i, v := range got {
 			cp[len(pp)] = Nth(i)
-			locs = locateContinueFrag(locs, cp, v, rest, max)
+			locs = locateContinueFrag(locs, cp, v, rest, max, root)
 			if 0 < max && max <= len(locs) {
 				break
 			}
